@@ -190,10 +190,16 @@ _DERIVE_SHARED = {
 def _base_adt(f, e):
     """adt name (peeled) of the value an expression denotes, if it is a plain
     argument / local of struct type"""
-    while isinstance(e, tuple) and e[0] in ('ref', 'cast'):
-        e = e[2]
-    if isinstance(e, tuple) and e[0] == 'proj' and all(p == '*' for p in e[2]):
-        e = e[1]
+    # any depth of reborrowing (`&mut *&mut *self`, as produced when a method body is spliced into its caller)
+    hops = 0
+    while isinstance(e, tuple) and hops < 16:
+        hops += 1
+        if e[0] in ('ref', 'cast'):
+            e = e[2]
+        elif e[0] == 'proj' and all(p == '*' for p in e[2]):
+            e = e[1]
+        else:
+            break
     if isinstance(e, tuple) and e[0] == 'arg':
         return f.locals[e[1]].get('adt')
     return None
